@@ -1063,9 +1063,14 @@ func (c08) Exec(c string) (string, []Fail) {
 		// oracle on the record
 		if consumes && r3 == "ok" {
 			lead, trail := 0, 0 // single-read columns at both ends of the path, signed (A negative)
-			lead = path[0]
-			if path[len(path)-1] == 0 && len(path) > 2 {
-				trail = path[len(path)-2]
+			// empty (0,0) runs at the end carry no column: the end gap is the last non-empty run
+			np := path
+			for len(np) > 2 && np[len(np)-1] == 0 && np[len(np)-2] == 0 {
+				np = np[:len(np)-2]
+			}
+			lead = np[0]
+			if np[len(np)-1] == 0 && len(np) > 2 {
+				trail = np[len(np)-2]
 			}
 			// columns at the two ends where only A / only B is present
 			aOnly, bOnly := 0, 0
